@@ -746,7 +746,13 @@ def _skip_event(*events, **kwargs):
     if changed is None:
         return False
     for e in events:
-        for p in changed:
+        # changed maps each watched parameter holding a subobject to the
+        # sub-paths depended on through it; an event for any other watched
+        # parameter is a change of a depended-on value itself
+        subpaths = changed.get(e.name) if isinstance(changed, dict) else changed
+        if subpaths is None:
+            return False
+        for p in subpaths:
             if what == 'value':
                 old = Undefined if e.old is None else _getattrr(e.old, p, None)
                 new = Undefined if e.new is None else _getattrr(e.new, p, None)
@@ -2376,8 +2382,20 @@ class Parameters:
         if dynamic_dep is None:
             subparams, callback, what = None, None, param_dep.what
         else:
-            subparams, callback, what = self_._resolve_dynamic_deps(
-                obj, dynamic_dep, param_dep, attribute)
+            # Several dependencies may go through this object: collect, per
+            # watched parameter, all the sub-paths depended on through it
+            subparams, callback, what = {}, None, param_dep.what
+            for ddep, pdep in group:
+                dsubparams, dcallback, dwhat = self_._resolve_dynamic_deps(
+                    obj, ddep, pdep, attribute)
+                if ddep is dynamic_dep:
+                    what = dwhat
+                callback = callback or dcallback
+                if dsubparams is None:
+                    subparams[pdep.name] = None
+                elif subparams.get(pdep.name, []) is not None:
+                    subparams.setdefault(pdep.name, []).extend(
+                        sp for sp in dsubparams if sp not in subparams[pdep.name])
 
         mcaller = _m_caller(obj, name, what, subparams, callback)
         return dep_obj.param._watch(
